@@ -550,3 +550,154 @@ Proof.
     simpl in Hc. rewrite Icd, Hcd0 in Hc. simpl in Hc. clear - Hc. simpl. lia.
   - rewrite Ip, Hcd0. reflexivity.
 Qed.
+
+Lemma step_CGraceful_second s tid g ag :
+  Inv s -> nth_error (threads s) tid = Some (Closer g CGraceful true ag) ->
+  Inv (set_thread (close_gracefulDone (do_graceful_ops s)) tid (Closer g CDone true ag)).
+Proof.
+  intros I Hn. setup I Hn. destruct Ht as ((Hcl & Hgg & Hagg & Haa) & Hg & Hag & Hcsc). subst g ag.
+  assert (gracefulDone s = false) as Hgd0
+      by (eapply (gowner_not_done s tid CGraceful true I Hn); discriminate).
+  constructor; psimpl;
+  [ eapply Forall_upd; [eassumption| same_others |]
+  | cnt Hn s Inum | cnt Hn s Inum | cnt Hn s Inum | idtac | cnt Hn s Inum
+  | cnt Hn s Inum | idtac
+  | assumption | idtac | assumption | assumption | assumption ].
+  - unfold tok_s; simpl. tokfin.
+  - pose proof (count_upd is_gowner_done (threads s) tid _ (Closer true CDone true false) Hn) as Hc.
+    simpl in Hc. rewrite Igd, Hgd0 in Hc. clear - Hc. simpl in *. lia.
+  - pose proof (count_upd is_gowner_done (threads s) tid _ (Closer true CDone true false) Hn) as Hc.
+    simpl in Hc. rewrite Igo in Hc. clear - Hc. simpl in *. lia.
+  - rewrite Ip, Hgd0. reflexivity.
+Qed.
+
+Lemma step_CGraceful_first s tid g ag :
+  Inv s -> nth_error (threads s) tid = Some (Closer g CGraceful false ag) ->
+  Inv (set_thread (close_closeDone (close_gracefulDone (do_graceful_ops s))) tid
+         (Closer g CDone false ag)).
+Proof.
+  intros I Hn. setup I Hn. destruct Ht as ((Hcl & Hgg & Hagg & Haa) & Hg & Hag & Hcsc). subst g ag.
+  assert (gracefulDone s = false) as Hgd0
+      by (eapply (gowner_not_done s tid CGraceful false I Hn); discriminate).
+  assert (closeDone s = false) as Hcd0
+      by (eapply (first_not_done s tid true CGraceful false I Hn); discriminate).
+  constructor; psimpl;
+  [ eapply Forall_upd; [eassumption| same_others |]
+  | cnt Hn s Inum | cnt Hn s Inum | idtac | idtac | cnt Hn s Inum
+  | cnt Hn s Inum | idtac
+  | assumption | idtac | assumption | assumption | assumption ].
+  - unfold tok_s; simpl. tokfin.
+  - pose proof (count_upd is_first_done (threads s) tid _ (Closer true CDone false false) Hn) as Hc.
+    simpl in Hc. rewrite Icd, Hcd0 in Hc. clear - Hc. simpl in *. lia.
+  - pose proof (count_upd is_gowner_done (threads s) tid _ (Closer true CDone false false) Hn) as Hc.
+    simpl in Hc. rewrite Igd, Hgd0 in Hc. clear - Hc. simpl in *. lia.
+  - pose proof (count_upd is_gowner_done (threads s) tid _ (Closer true CDone false false) Hn) as Hc.
+    simpl in Hc. rewrite Igo in Hc. clear - Hc. simpl in *. lia.
+  - rewrite Ip, Hgd0, Hcd0. reflexivity.
+Qed.
+
+Lemma step_UStart s tid i d :
+  Inv s -> nth_error (threads s) tid = Some (Updater i d UStart) -> ucsLock s = false ->
+  Inv (set_thread (set_lock s true) tid (Updater i d (UComputed (pion_state (isClosed s) i d)))).
+Proof.
+  intros I Hn El. setup I Hn.
+  constructor; psimpl;
+  [ eapply Forall_upd; [eassumption| same_others |]
+  | cnt Hn s Inum | cnt Hn s Inum | cnt Hn s Inum | cnt Hn s Inum | idtac
+  | cnt Hn s Inum | cnt Hn s Inum
+  | assumption | assumption | assumption | assumption | assumption ].
+  - unfold tok_s; psimpl. simpl. split.
+    + intros E. apply pion_closed_iff in E. exact E.
+    + intros E. change (seenb (set_lock s true)) with (seenb s).
+      destruct (seenb s) eqn:Es; auto. specialize (Ise eq_refl).
+      exfalso. apply E. apply pion_closed_iff. exact Ise.
+  - pose proof (count_upd holds_lock (threads s) tid _
+                  (Updater i d (UComputed (pion_state (isClosed s) i d))) Hn) as Hc.
+    simpl in Hc. rewrite Ih, El in Hc. clear - Hc. simpl in *. lia.
+Qed.
+
+Lemma step_UComputed s tid i d v :
+  Inv s -> nth_error (threads s) tid = Some (Updater i d (UComputed v)) ->
+  Inv (set_thread (ucs_commit s v) tid (Updater i d UDone)).
+Proof.
+  intros I Hn. setup I Hn. destruct Ht as [Hv1 Hv2].
+  pose proof (holder_locked s tid _ I Hn eq_refl) as El.
+  destruct (pcs_eqb v PcClosed) eqn:Ev.
+  - (* the value is closed *)
+    apply pcs_eqb_eq in Ev. subst v. specialize (Hv1 eq_refl).
+    pose proof (others_after_closed_commit s tid _ I Hn eq_refl) as Hothers.
+    destruct (commit_closed_fields s) as (E1 & E2 & E3 & E4 & E5 & E6 & E7 & E8 & E9 & E10 & Es & Ec & Elog).
+    constructor; psimpl; rewrite ?E1, ?E2, ?E3, ?E4, ?E5, ?E6, ?E7, ?E8, ?E9, ?E10;
+    [ eapply Forall_upd; [eassumption| |]
+    | cnt Hn s Inum | cnt Hn s Inum | cnt Hn s Inum | cnt Hn s Inum | cnt Hn s Inum
+    | cnt Hn s Inum | cnt Hn s Inum
+    | assumption | assumption | assumption | auto | auto ].
+    + intros m u Hm Hu Hp. unfold tok_s; psimpl. rewrite E2, E3. unfold seenb in *. psimpl.
+      rewrite Es, Ec. eapply Hothers; eauto.
+    + exact Logic.I.
+  - (* a non-closed value: closed was never stored or reported so far *)
+    assert (v <> PcClosed) as Hvn by (apply pcs_eqb_neq; exact Ev).
+    specialize (Hv2 Hvn). unfold seenb in Hv2. apply orb_false_elim in Hv2.
+    destruct Hv2 as [Hcs Hlg].
+    unfold ucs_commit. destruct (pcs_eqb (connState s) v) eqn:E.
+    + constructor; psimpl;
+      [ eapply Forall_upd; [eassumption| same_others |]
+      | cnt Hn s Inum | cnt Hn s Inum | cnt Hn s Inum | cnt Hn s Inum | cnt Hn s Inum
+      | cnt Hn s Inum | cnt Hn s Inum
+      | assumption | assumption | assumption | assumption | assumption ].
+      exact Logic.I.
+    + assert (existsb (pcs_eqb PcClosed) (connLog s ++ [v]) = false) as Hlg'.
+      { rewrite existsb_app_one, Hlg. simpl. destruct v; simpl in *; auto; discriminate. }
+      constructor; psimpl;
+      [ eapply Forall_upd; [eassumption| |]
+      | cnt Hn s Inum | cnt Hn s Inum | cnt Hn s Inum | cnt Hn s Inum | cnt Hn s Inum
+      | cnt Hn s Inum | cnt Hn s Inum
+      | assumption | assumption | assumption | idtac | idtac ].
+      * intros m u Hm Hu Hp. unfold tok_s, seenb in *; psimpl.
+        rewrite Ev, Hlg'. rewrite Hcs, Hlg in Hp. exact Hp.
+      * exact Logic.I.
+      * apply cif_app_unseen; auto.
+      * unfold seenb; psimpl. rewrite Ev, Hlg'. discriminate.
+Qed.
+
+Lemma Inv_step s tid s' : Inv s -> step s tid = Some s' -> Inv s'.
+Proof.
+  intros I H. unfold step in H.
+  destruct (nth_error (threads s) tid) as [t|] eqn:Hn; [|discriminate].
+  destruct t as [g pc ac ag | i d pc].
+  - destruct pc; cbn [step_closer] in H.
+    + inversion H; subst. eapply step_CStart; eauto.
+    + destruct ac.
+      * pose proof (step_CSwapped_later s tid g ag I Hn) as X.
+        destruct g, ag; simpl in *; inversion H; subst; exact X.
+      * inversion H; subst. eapply step_CSwapped_first; eauto.
+    + destruct (gracefulDone s); inversion H; subst. eapply step_CWaitG; eauto.
+    + destruct (closeDone s); inversion H; subst. eapply step_CWaitC; eauto.
+    + destruct (ucsLock s) eqn:El; inversion H; subst. eapply step_CTorndown; eauto.
+    + destruct g; inversion H; subst.
+      * eapply step_CComputed_graceful; eauto.
+      * eapply step_CComputed_plain; eauto.
+    + destruct ac; inversion H; subst.
+      * eapply step_CGraceful_second; eauto.
+      * eapply step_CGraceful_first; eauto.
+    + discriminate.
+  - destruct pc; cbn [step_updater] in H.
+    + destruct (ucsLock s) eqn:El; inversion H; subst. eapply step_UStart; eauto.
+    + inversion H; subst. eapply step_UComputed; eauto.
+    + discriminate.
+Qed.
+
+Lemma Inv_step_skip s tid : Inv s -> Inv (step_skip s tid).
+Proof.
+  intros I. unfold step_skip. destruct (step s tid) eqn:E; auto. eapply Inv_step; eauto.
+Qed.
+
+Lemma Inv_run s sched : Inv s -> Inv (run s sched).
+Proof.
+  revert s. induction sched as [|tid r IH]; intros s I; simpl; auto.
+  apply IH. apply Inv_step_skip; auto.
+Qed.
+
+Lemma Inv_reachable i0 c0 ts sched :
+  c0 <> PcClosed -> Inv (run (init_with i0 c0 ts) sched).
+Proof. intros H. apply Inv_run. apply Inv_init; auto. Qed.
